@@ -269,6 +269,12 @@ func deserializeIndex(src io.Reader) (systemFontsIndex, error) {
 		out = append(out, fp)
 	}
 
+	// read until EOF, so that the gzip reader verifies the checksum and size of
+	// the whole payload: a corrupted cache file must not be silently accepted
+	if _, err := io.Copy(io.Discard, r); err != nil {
+		return nil, fmt.Errorf("invalid index: %s", err)
+	}
+
 	return out, nil
 }
 
